@@ -453,6 +453,45 @@ async def main(args):
                 out.violation("first datagram of a reverse-UDP session through an http upstream is lost", {"received": [g[:24].hex() for g in got]})
         finally:
             u.close()
+        # ---------------- many sessions writing multi-fragment datagrams at the same instant over one QUIC connection (no loss on
+        # this path): whatever the proxy shares between the sessions of a connection (fragment ids!) is hit from several threads
+        storm = []
+        for k in range(8):
+            sess_id += 1
+            s = Session(["socks", "rev"][k % 2], "q", client_id + 90 + k, sess_id)
+            try:
+                await s.open(P, tag)
+                storm.append(s)
+                sessions.append(s)
+            except Exception:
+                out.inconclusive += 1
+        for s in storm:
+            seq, _ = s.send(args.seed, origins[0], 100)
+            await s.wait_reply(seq, 2.0)
+        storm_lost = []
+
+        async def storm_one(s):
+            n = 400 if args.thorough else 150
+            window = []
+            for i in range(n):
+                out.case()
+                seq, _ = s.send(args.seed, origins[0], rng.choice([2400, 3000, 3400]))
+                window.append(seq)
+                if len(window) >= 2:
+                    q = window.pop(0)
+                    if await s.wait_reply(q, 2.5, grace=0) is None:
+                        storm_lost.append((s.lk, s.session, q))
+            for q in window:
+                if await s.wait_reply(q, 2.5, grace=0) is None:
+                    storm_lost.append((s.lk, s.session, q))
+        await asyncio.gather(*[storm_one(s) for s in storm])
+        if storm_lost:
+            # one common grace period for everything that is merely late
+            await asyncio.sleep(5.0)
+            still = [(lk, sid, q) for (lk, sid, q) in storm_lost if not any(parse_payload(d[1:]) and parse_payload(d[1:])[3] == q for s in storm if s.session == sid for (_, _, d) in s.rx if d[:1] == b"R")]
+            if still:
+                out.violation("datagram lost without network loss (many sessions sending multi-fragment datagrams at once): %s via q" % still[0][0], {"lost": len(still), "of": len(storm) * (400 if args.thorough else 150)})
+        out.nontrivial(("q", "concurrent-multi-fragment", len(storm)))
         # ---------------- small bursts: 24 x 64-byte datagrams back to back on one session at a time. The whole burst is a few
         # kilobytes, far below every socket buffer on the way, so no hop can lose any of it for lack of buffer space
         async def small_burst(lk, ck, cid, sid):
